@@ -671,3 +671,5 @@ _run_c13_6 = run
 def run(res, facts, tier):
     _run_c13_6(res, facts, tier)
     r7_whitespace_flag(res, facts)
+    from . import c01_count
+    c01_count.run_c13_rule(res, facts, tier)
